@@ -59,6 +59,12 @@ int main(int argc, char** argv) {
     auto pick = [&]() { return keys[rng() % keys.size()]; };
     auto endkey = [&]() { if (rng() % 12 == 0) return std::string(8, (char)255) + rnd_bytes(rng() % 3);   // endpoints behind the all-FF slice
         std::string k = pick(); int m = rng() % 6; if (m == 0 && !k.empty()) k.pop_back(); else if (m == 1) k.push_back((char)AL[rng() % alpha]); else if (m == 2) k.push_back(0); else if (m == 3) k = rnd_bytes(rng() % (maxlen + 2)); return k; };
+    // both endpoints below one 8- or 16-byte prefix that usually has no entry in the tree (the read covers a gap between two slices)
+    long ppair = argi("ppair", 0);
+    auto pair_endkeys = [&](std::string& lk, std::string& rk) {
+        std::string Q = (rng() % 2) ? rnd_bytes(8) : prefixes[rng() % 3] + rnd_bytes(8);
+        lk = Q + rnd_bytes(1 + rng() % 2); rk = Q + rnd_bytes(1 + rng() % 2); if (lk > rk) std::swap(lk, rk);
+    };
     init();
     const std::string st = "t";
     create_storage(st);
@@ -107,9 +113,13 @@ int main(int argc, char** argv) {
         if (rc == status::OK) present[k] = true;
         have_read = false;
     };
-    long psweep = argi("psweep", 0); std::vector<std::string> sweep;   // sorted runs of removes that empty whole borders
+    long psweep = argi("psweep", 0), pdrain = argi("pdrain", 0); std::vector<std::string> sweep;   // sorted runs of removes that empty whole borders
     for (long opno = 1; opno <= nops; opno++) {
         long x = rng() % 100; long acc = 0;
+        if (sweep.empty() && pdrain > 0 && (long)(rng() % 1000) < pdrain) {     // remove every key: the emptied root border stays, flagged deleted
+            for (auto& kv : present) if (kv.second) sweep.push_back(kv.first);
+            if (rng() % 2) std::reverse(sweep.begin(), sweep.end());
+        }
         if (sweep.empty() && psweep > 0 && (long)(rng() % 1000) < psweep) {
             std::vector<std::string> pk; for (auto& kv : present) if (kv.second) pk.push_back(kv.first);
             if (pk.size() > 4) { std::size_t len = 6 + rng() % 40, from = rng() % pk.size(); int how = rng() % 3;
@@ -126,6 +136,10 @@ int main(int argc, char** argv) {
         // phantom probe right after a read that collected node versions
         if (have_read && (long)(rng() % 100) < pprobe) {
             std::vector<std::string> cand; for (auto& k : keys) if (!present[k] && in_range(k, rd_l, rd_le, rd_r, rd_re)) cand.push_back(k);
+            if (cand.empty() && rd_l.size() > 8 && rd_r.size() > 8 && rd_l.compare(0, 8, rd_r, 0, 8) == 0) {   // a gap read: keys below the common prefix
+                std::size_t cp = 0; while (cp < rd_l.size() && cp < rd_r.size() && rd_l[cp] == rd_r[cp]) cp++; cp = cp / 8 * 8;
+                for (int t = 0; t < 12; t++) { std::string k = rd_l.substr(0, cp) + rnd_bytes(1 + rng() % 3); if (!present[k] && in_range(k, rd_l, rd_le, rd_r, rd_re)) cand.push_back(k); }
+            }
             if (cand.empty()) { for (int t = 0; t < 3; t++) { std::string k = endkey(); if (!present[k]) cand.push_back(k); } }
             if (!cand.empty()) { std::string k = cand[rng() % cand.size()]; if (std::find(keys.begin(), keys.end(), k) == keys.end()) keys.push_back(k); do_put(k, false, true, opno); continue; }
         }
@@ -147,6 +161,7 @@ int main(int argc, char** argv) {
         }
         if (x < (acc += pscan)) {
             std::string lk = endkey(), rk = endkey(); scan_endpoint le = EPS(), re = EPS(); std::size_t mx = (rng() % 3 == 0) ? 1 + rng() % 3 : 0; bool rtl = (long)(rng() % 100) < argi("prtl", 12);
+            if ((long)(rng() % 100) < ppair) { pair_endkeys(lk, rk); if (rng() % 3) { le = rng() % 2 ? scan_endpoint::INCLUSIVE : scan_endpoint::EXCLUSIVE; re = rng() % 2 ? scan_endpoint::INCLUSIVE : scan_endpoint::EXCLUSIVE; } }
             if (rtl && rng() % 4) { re = scan_endpoint::INF; mx = 1; }
             if (le != scan_endpoint::INF && re != scan_endpoint::INF && lk > rk && rng() % 4) std::swap(lk, rk);
             std::vector<std::tuple<std::string, char*, std::size_t>> tl; std::vector<std::pair<node_version64_body, node_version64*>> nv;
@@ -161,6 +176,7 @@ int main(int argc, char** argv) {
         }
         if (x < (acc += piscan)) {
             std::string lk = endkey(), rk = endkey(); scan_endpoint le = EPS(), re = EPS(); bool rtl = rng() % 2; bool ea = rng() % 4 == 0;
+            if ((long)(rng() % 100) < ppair) { pair_endkeys(lk, rk); if (rng() % 3) { le = rng() % 2 ? scan_endpoint::INCLUSIVE : scan_endpoint::EXCLUSIVE; re = rng() % 2 ? scan_endpoint::INCLUSIVE : scan_endpoint::EXCLUSIVE; } }
             if (le != scan_endpoint::INF && re != scan_endpoint::INF && lk > rk && rng() % 4) std::swap(lk, rk);
             long limit = (rng() % 3 == 0) ? (long)(rng() % 4) : -1;   // number of entries to consume (-1: until the end)
             std::vector<std::pair<node_version64_body, node_version64*>> nv;
